@@ -426,3 +426,976 @@ def gen_log(runner, tier, seed):
                         b[r.randrange(len(b))] ^= 1 << r.randrange(8)
                     fr.append(bytes(b))
                 s.send(fr)
+
+
+# ------------------------------------------------------------------ C07 / C08 / C09 / C11 (TCP)
+HTTP_REQS = [http_request(), http_request("POST", b"/form", headers=[b"Host: h", b"Content-Length: 0"]),
+             http_request("OPTIONS", b"/*", b"HTTP/1.0", eol=b"\n"), http_request("DELETE", b"/a/b?c=d", headers=[b"X-Y: z"], eol=b"\n"),
+             http_request("HEAD", b"/\xff\xfe", headers=[b"A: b", b"C: d"]), http_request("CONNECT", b"/", b"HTTP/2.0"),
+             http_request("PUT", b"/p", headers=[b"K:v"]), http_request("TRACE", b"/t"), http_request("PATCH", b"/x", eol=b"\n")]
+
+
+def rpc_reqs(r):
+    return [rpc_call(xid=0x80000000 | r.randrange(1 << 24), vers=2, proc=3, args=struct.pack(">IIII", 100003, 3, 6, 0), tcp=True),
+            rpc_call(xid=0x7f000000 | r.randrange(1 << 24), vers=4, proc=4, tcp=True),
+            rpc_call(xid=0x01000000 | r.randrange(1 << 24), vers=3, proc=0, cred=b"\0" * 4, tcp=True),
+            rpc_call(xid=0x02000000 | r.randrange(1 << 24), vers=104316, proc=0, cred=b"abcd1234", tcp=True),
+            rpc_call(xid=0x03000000 | r.randrange(1 << 24), prog=100005, vers=3, proc=1, tcp=True),
+            rpc_call(xid=0x04000000 | r.randrange(1 << 24), vers=2, proc=77, tcp=True)]
+
+
+def split_at(b, cuts):
+    out, last = [], 0
+    for c in cuts:
+        out.append(b[last:c])
+        last = c
+    out.append(b[last:])
+    return out
+
+
+class Flow:
+    """Client side of one TCP flow (tracks its own sequence number, knows its cookie once
+    the SYN-ACK has been seen - exactly what a real client knows)."""
+
+    def __init__(self, peer, sport, dport, isn):
+        self.peer, self.sport, self.dport = peer, sport, dport
+        self.seq = isn & 0xFFFFFFFF
+        self.ck = None
+
+    def syn(self, flags=F_SYN):
+        f = self.peer.tcp(self.sport, self.dport, self.seq, 0, flags)
+        return f
+
+    def learn(self, obs):
+        if obs["out"] == "reply":
+            self.ck = tcp_fields(bytes(obs["rep"]))["seq"]
+            self.seq = (self.seq + 1) & 0xFFFFFFFF
+
+    def data(self, payload, ack=None, flags=F_PSH | F_ACK, advance=True):
+        a = ((self.ck or 0) + 1) & 0xFFFFFFFF if ack is None else ack & 0xFFFFFFFF
+        f = self.peer.tcp(self.sport, self.dport, self.seq, a, flags, payload)
+        if advance:
+            self.seq = (self.seq + len(payload)) & 0xFFFFFFFF
+        return f
+
+    def raw(self, flags, payload=b"", ack=None):
+        a = ((self.ck or 0) + 1) & 0xFFFFFFFF if ack is None else ack & 0xFFFFFFFF
+        return self.peer.tcp(self.sport, self.dport, self.seq, a, flags, payload)
+
+
+def open_flows(s, flows):
+    obs = s.send([f.syn() for f in flows])
+    for f, o in zip(flows, obs):
+        f.learn(o)
+    return [f for f in flows if f.ck is not None]
+
+
+def noise(r):
+    p4, p6 = peer4(), peer6()
+    cm = mac(CMAC)
+    return r.choice([
+        eth(b"\xff" * 6, cm, 0x0806, arp(1, cm, C4, "00:00:00:00:00:00", S4)),
+        p4.echo(r.randrange(65536), 1, b"n"), p6.echo(r.randrange(65536), 1, b"n"),
+        p4.udp(r.randrange(65536), 80, http_request()), p6.udp(r.randrange(65536), 111, rpc_call()),
+        p4.udp(r.randrange(65536), 53, dns_query(id_=r.randrange(65536))),
+        p4.tcp(r.randrange(65536), 80, r.randrange(1 << 32), r.randrange(1 << 32), r.choice([F_ACK, F_RST, F_FIN | F_ACK, F_SYN, F_RST | F_ACK])),
+        p6.tcp(r.randrange(65536), 80, r.randrange(1 << 32), r.randrange(1 << 32), r.choice([F_ACK, F_RST, F_FIN | F_ACK, F_SYN])),
+        p4.tcp(r.randrange(65536), 80, r.randrange(1 << 32), r.randrange(1 << 32), F_PSH | F_ACK, b"GET / HTTP/1.1\r\n\r\n"),
+    ])
+
+
+def gen_tcp_gate(runner, tier, seed):
+    r = rng_for(seed, "C07")
+    rounds = 3 if tier == "quick" else 60
+    for rd in range(rounds):
+        s = runner.session(cfg_plain(key=KEYS[rd % 3]), "tcp gate round %d" % rd)
+        peers = [peer4(), peer6(), Peer(CMAC, SMAC, rand_ip4(r), rand_ip4(r)), Peer(CMAC, SMAC, rand_ip6(r), rand_ip6(r))]
+        isns = [0, 1, 0x7fffffff, 0x80000000, 0xfffffffe, 0xffffffff, 0xfffffff0]
+        flows = [Flow(r.choice(peers), 1024 + i, r.choice([22, 80, 111, 445, r.randrange(65536)]), r.choice(isns + [r.randrange(1 << 32)]))
+                 for i in range(12)]
+        # before any SYN: data with an arbitrary acknowledgement (cookie still unknown to the model)
+        s.send([f.raw(F_PSH | F_ACK, b"early", ack=r.randrange(1 << 32)) for f in flows[:4]])
+        live = open_flows(s, flows)
+        script = []
+        for f in live:
+            ck = f.ck
+            steps = []
+            for bad in (0, ck, (ck + 2) & 0xFFFFFFFF, r.randrange(1 << 32), (ck + 0x10000) & 0xFFFFFFFF, (ck + 1) ^ 0x80000000):
+                if bad != (ck + 1) & 0xFFFFFFFF:
+                    steps.append(("raw", F_PSH | F_ACK | r.choice([0, 0, F_FIN, F_URG, F_SYN, F_RST]), r.choice([b"", b"x", HTTP_REQS[0]]), bad))
+            steps.append(("raw", F_ACK, b"", None))
+            steps.append(("raw", F_RST, b"", None))
+            steps.append(("raw", F_FIN | F_ACK, b"", None))
+            steps.append(("raw", F_RST | F_ACK, b"", None))
+            req = r.choice(HTTP_REQS + rpc_reqs(r))
+            cut = r.randrange(0, len(req) + 1)
+            k = r.random()
+            first = b"" if k < 0.15 else (req[:1] if k < 0.3 else req[:cut])
+            rest = req[len(first):]
+            steps.append(("data", F_PSH | F_ACK | r.choice([0, 0, 0, F_FIN, F_URG, F_SYN, F_RST, F_ECE, F_NS]), first, None))
+            steps.append(("raw", F_SYN, b"", None))                       # a retransmitted SYN on a validated flow
+            if rest:
+                steps.append(("data", F_PSH | F_ACK, rest, None))
+            steps.append(("data", F_PSH | F_ACK, b"more", r.choice([None, None, 0, r.randrange(1 << 32)])))
+            steps.append(("raw", F_ACK, b"", None))
+            steps.append(("raw", F_FIN | F_ACK, r.choice([b"", b"", b"bye"]), None))
+            steps.append(("raw", F_RST, b"", None))
+            script.append((f, steps))
+        # interleave the per-flow scripts in a seeded random order
+        frames = []
+        idx = [0] * len(script)
+        while any(i < len(st) for i, (_, st) in zip(idx, script)):
+            k = r.choice([j for j in range(len(script)) if idx[j] < len(script[j][1])])
+            f, st = script[k]
+            kind, flags, pay, ack = st[idx[k]]
+            idx[k] += 1
+            frames.append(f.data(pay, ack, flags) if kind == "data" else f.raw(flags, pay, ack))
+            if r.random() < 0.15:
+                frames.append(noise(r))
+        s.send(frames)
+
+
+def gen_interference(runner, tier, seed):
+    """C08.  Every frame of an interleaved multi-flow history is also executed after only the
+    accepted data segments of its own flow (the restricted history, run first, on an empty
+    table); paired events are compared by the specification (Stack!PairJudge)."""
+    r = rng_for(seed, "C08")
+    rounds = 4 if tier == "quick" else 80
+    for rd in range(rounds):
+        s = runner.session(cfg_plain(key=KEYS[rd % 3]), "interference round %d" % rd)
+        nf = r.choice([2, 3, 5, 8, 16])
+        peers = [peer4(), peer6()]
+        flows = [Flow(r.choice(peers), 2000 + i, r.choice([80, 111, 8080]), r.randrange(1 << 32)) for i in range(nf)]
+        live = open_flows(s, flows)
+        plans = []
+        for f in live:
+            req = r.choice(HTTP_REQS + rpc_reqs(r))
+            ncuts = r.choice([0, 1, 1, 2, 3, 5])
+            cuts = sorted(set(r.randrange(1, len(req)) for _ in range(ncuts)))
+            plans.append([f, split_at(req, cuts)])
+        seq = []                       # (frame, flow index or None)
+        while any(p[1] for p in plans):
+            k = r.choice([j for j, q in enumerate(plans) if q[1]])
+            seq.append((plans[k][0].data(plans[k][1].pop(0)), k))
+            x = r.random()
+            if x < 0.25:
+                seq.append((noise(r), None))
+            elif x < 0.35:
+                f = r.choice(live)
+                seq.append((f.peer.udp(f.sport, f.dport, r.choice(HTTP_REQS)), None))      # same 4-tuple over UDP
+            elif x < 0.45:
+                f = r.choice(live)
+                seq.append((f.raw(r.choice([F_ACK, F_SYN, F_RST, F_FIN | F_ACK])), None))  # non-data TCP on a live flow
+            elif x < 0.5:
+                k2 = r.randrange(len(plans))
+                # data with a wrong acknowledgement: part of that flow's own history if the flow is already validated
+                seq.append((plans[k2][0].raw(F_PSH | F_ACK, b"intruder", ack=r.randrange(1 << 32)), k2))
+        # restricted histories first: each flow alone, then the stateless frames
+        for k in range(len(plans)):
+            s.reset()
+            idx = [i for i, (_, fk) in enumerate(seq) if fk == k]
+            s.send([seq[i][0] for i in idx], pair=[i + 1 for i in idx])
+        s.reset()
+        idx = [i for i, (_, fk) in enumerate(seq) if fk is None]
+        s.send([seq[i][0] for i in idx], pair=[i + 1 for i in idx])
+        # the full interleaved history
+        s.reset()
+        s.send([f for f, _ in seq], pair=[i + 1 for i in range(len(seq))])
+
+
+COLLISION = {"key": (0, 0), "a": ("1.2.3.4", 1245, "5.6.7.8", 240), "b": ("1.2.3.4", 1279, "5.6.7.8", 123)}
+
+
+def collision_witness(runner, prop):
+    """The listed witness of the cookie-keyed connection table: two flows with equal cookies."""
+    w = COLLISION
+    s = runner.session(Config(SMAC, None, None, w["key"], "none", 0), "known finding witness: flows with equal SYN cookies")
+    pa = Peer(CMAC, SMAC, w["a"][0], w["a"][2])
+    pb = Peer(CMAC, SMAC, w["b"][0], w["b"][2])
+    fa, fb = Flow(pa, w["a"][1], w["a"][3], 100), Flow(pb, w["b"][1], w["b"][3], 200)
+    # (C08) the restricted history of B's segment: nothing
+    intr = fb.raw(F_PSH | F_ACK, b"TP/1.1\r\n\r\n", ack=12345)
+    s.send([intr], pair=1)
+    s.reset()
+    open_flows(s, [fa, fb])
+    if fa.ck is None or fb.ck is None or fa.ck != fb.ck:
+        return s                               # the cookies are no longer equal: nothing to show
+    s.send([fa.data(b"GET / HT")])
+    s.send([intr], pair=1)                     # B, never validated, wrong acknowledgement
+    if prop == "C09":
+        s.send([fb.data(b"x")])                # B validates: no second table entry
+    return s
+
+
+def known_witnesses(runner, prop, r=None):
+    """Re-execute the witness of every known finding listed for this property."""
+    import tv
+    for ent in tv.known_entries():
+        if ent["property"] != prop:
+            continue
+        key = ent["key"]
+        if key.endswith(":equal-cookies"):
+            collision_witness(runner, prop)
+        elif key.startswith("shadow:RPC-UDP:0:"):
+            b = int(key.split(":")[-1])
+            s = runner.session(cfg_plain(), "known finding witness: " + key)
+            s.send([peer4().udp(40000, 111, rpc_call(xid=(b << 24) | 0x345678, vers=2, proc=3))])
+        elif key == "shadow:RPC-TCP:4:0":
+            s = runner.session(cfg_plain(), "known finding witness: " + key)
+            tcp_batch(s, [(peer4(), 40001, 111, 7, [rpc_call(xid=0x00345678, vers=2, proc=3, tcp=True)])])
+        elif key == "shadow:STUN-magic:2:0":
+            s = runner.session(cfg_plain(), "known finding witness: " + key)
+            s.send([peer4().udp(40002, 3478, stun(1, STUN_MAGIC + b"\x01" * 12, stun_attr(0x8022, b"k" * 80)))])
+
+
+def gen_flood(runner, tier, seed):
+    r = rng_for(seed, "C09")
+    s = runner.session(cfg_plain(), "flood")
+    n = 3000 if tier == "quick" else 200000
+    p4, p6 = peer4(), peer6()
+    flows = [Flow(r.choice([p4, p6]), 3000 + i, 80, r.randrange(1 << 32)) for i in range(6)]
+    sent_valid = 0
+    batch = []
+    for i in range(n):
+        x = r.random()
+        if x < 0.45:
+            p = Peer(CMAC, SMAC, rand_ip4(r), S4) if r.random() < 0.5 else Peer(CMAC, SMAC, rand_ip6(r), S6)
+            batch.append(p.tcp(r.randrange(65536), r.randrange(65536), r.randrange(1 << 32), r.randrange(1 << 32), r.randrange(512) | F_SYN,
+                               b"" if r.random() < 0.8 else b"syn-data"))
+        elif x < 0.65:
+            p = Peer(CMAC, SMAC, rand_ip4(r), S4) if r.random() < 0.5 else Peer(CMAC, SMAC, rand_ip6(r), S6)
+            batch.append(p.tcp(r.randrange(65536), r.randrange(65536), r.randrange(1 << 32), r.randrange(1 << 32), F_PSH | F_ACK | r.choice([0, F_FIN, F_URG]),
+                               r.choice([b"", b"GET / HTTP/1.1\r\n\r\n", b"\x80\0\0\x28"])))
+        elif x < 0.8:
+            p = r.choice([p4, p6])
+            batch.append(p.tcp(r.randrange(65536), r.randrange(65536), r.randrange(1 << 32), r.randrange(1 << 32), r.choice([F_FIN | F_ACK, F_RST, F_ACK, F_FIN, F_RST | F_ACK, 0, F_URG])))
+        elif x < 0.97:
+            batch.append(noise(r))
+        else:
+            batch.append(None)      # a genuine validation happens here
+    # run, replacing the None markers by genuine validated segments (2 per flow, so "at most once per flow" is exercised)
+    out = []
+    opened = False
+    cur = []
+    for b in batch:
+        if b is None:
+            if cur:
+                s.send(cur)
+                cur = []
+            if not opened:
+                flows = open_flows(s, flows)
+                opened = True
+            if flows:
+                f = r.choice(flows)
+                cur.append(f.data(r.choice([b"", b"G", b"GET /", b"\x80\0"])))
+        else:
+            cur.append(b)
+    if cur:
+        s.send(cur)
+
+
+def gen_segmentation(runner, tier, seed):
+    r = rng_for(seed, "C11")
+    reqs = HTTP_REQS[:4] + rpc_reqs(r)[:3] if tier == "quick" else HTTP_REQS + rpc_reqs(r)
+    port = 4000
+    for qi, req in enumerate(reqs):
+        s = runner.session(cfg_plain(key=KEYS[qi % 3]), "segmentation request %d (%d bytes)" % (qi, len(req)))
+        n = len(req)
+        plans = [[req]]
+        plans += [split_at(req, [c]) for c in range(1, n)]                       # every 1-cut
+        if tier == "quick":
+            plans += [split_at(req, sorted(r.sample(range(1, n), 2))) for _ in range(30)]
+        else:
+            plans += [split_at(req, [a, b]) for a in range(1, n) for b in range(a + 1, n)][:4000]   # every 2-cut (bounded)
+        plans += [[req[i:i + 1] for i in range(n)]]                              # byte by byte
+        plans += [split_at(req, sorted(set(r.randrange(1, n) for _ in range(r.randrange(3, 9))))) for _ in range(10 if tier == "quick" else 200)]
+        peers = [peer4(), peer6()]
+        for chunk in chunks(plans, 60):
+            flows = []
+            for pl in chunk:
+                port += 1
+                flows.append((Flow(r.choice(peers), 1024 + (port % 60000), r.choice([80, 111, 2049, 31337]), r.randrange(1 << 32)), pl))
+            live = open_flows(s, [f for f, _ in flows])
+            frames = []
+            # interleave the flows round-robin so that segments of different flows alternate
+            pending = [[f, list(pl)] for f, pl in flows if f.ck is not None]
+            while pending:
+                for item in list(pending):
+                    frames.append(item[0].data(item[1].pop(0)))
+                    if not item[1]:
+                        pending.remove(item)
+            s.send(frames)
+
+
+# ------------------------------------------------------------------ application protocols (C13 - C18)
+def send_payloads(runner, label, payloads, r, tier, cfg=None, tcp=True, udp=True, v6=True):
+    """Send each payload over UDP and as the first segment of a fresh TCP flow, on random ports."""
+    s = runner.session(cfg or cfg_plain(), label)
+    p4, p6 = peer4(), peer6()
+    if udp:
+        fr = []
+        for pl in payloads:
+            fr.append(p4.udp(r.randrange(65536), r.randrange(65536), pl))
+            if v6:
+                fr.append(p6.udp(r.randrange(65536), r.randrange(65536), pl))
+        s.send(fr)
+    if tcp:
+        port = [1024]
+        for ch in chunks(payloads, 400):
+            flows = []
+            for pl in ch:
+                port[0] += 1
+                flows.append((r.choice([p4, p6]) if v6 else p4, port[0], r.randrange(65536), r.randrange(1 << 32), [pl]))
+            tcp_batch(s, flows)
+    return s
+
+
+def rb(r, n, alphabet=None):
+    if alphabet is None:
+        return bytes(r.randrange(256) for _ in range(n))
+    return bytes(r.choice(alphabet) for _ in range(n))
+
+
+def gen_http(runner, tier, seed):
+    r = rng_for(seed, "C13")
+    pl = []
+    target_alpha = [c for c in range(33, 127)] + [0x80, 0xff, 0xc3, 0x28, 0x00, 0x09]
+    n = 6 if tier == "quick" else 120
+    for verb in HTTP_VERBS:
+        for k in range(n):
+            target = b"/" + rb(r, r.randrange(0, 24), target_alpha)
+            ver = b"HTTP/" + str(r.choice([0, 1, 2, 9, 10, 11])).encode() + b"." + str(r.choice([0, 1, 9, 12])).encode()
+            eol = r.choice([b"\r\n", b"\n"])
+            hs = []
+            for _ in range(r.choice([0, 0, 1, 2, 5])):
+                hs.append(rb(r, r.randrange(1, 12), list(range(65, 91)) + list(range(97, 123)) + [45]) + b":" + r.choice([b"", b" "]) +
+                          rb(r, r.randrange(0, 20), [c for c in range(32, 127)] + [0xe9, 0x09]))
+            req = http_request(verb, target, ver, hs, eol, body=r.choice([b"", b"", b"body=1", rb(r, 9)]))
+            pl.append(req)
+            # every single-token fault of the clean request
+            toks = [verb.encode(), b" ", target, b" ", ver, eol] + [x for h in hs for x in (h, eol)] + [eol]
+            for i in range(len(toks)):
+                mode = r.choice(["del", "dup", "sub"]) if tier == "quick" else None
+                for m in ([mode] if mode else ["del", "dup", "sub"]):
+                    t2 = list(toks)
+                    if m == "del":
+                        del t2[i]
+                    elif m == "dup":
+                        t2.insert(i, toks[i])
+                    else:
+                        t2[i] = r.choice([b"", b"\r", b"\n", b" ", b"x", b":", b"HTTP/", b"http/1.1", b"\r\r\n", b"HTTP/1.", b"HTTP/.1", b"get", b"FOO", b"\0", b"/"])
+                    pl.append(b"".join(t2))
+    # method case, unknown methods, no space, etc.
+    pl += [b"get / HTTP/1.1\r\n\r\n", b"Get / HTTP/1.1\r\n\r\n", b"FOO / HTTP/1.1\r\n\r\n", b"GET/ HTTP/1.1\r\n\r\n", b"GETX / HTTP/1.1\r\n\r\n",
+           b"GET  / HTTP/1.1\r\n\r\n", b"GET / HTTP/1.1", b"GET / HTTP/1.1\r\n", b"GET / HTTP/1.1\r\nHost: x\r\n", b"GET /", b"GET / ",
+           b"PROPFIND / HTTP/1.1\r\n\r\n", b"GET / HTTP/1.1\r\nNoColonHere\r\n\r\n", b"GET / HTTP/1.1\nNoColon\n\n",
+           b"GET / HTTP/1.1\r\n\r\nGET / HTTP/1.1\r\n\r\n", b"GET /\xff\xfe\xfd HTTP/1.1\r\n\r\n", b"GET /" + b"A" * 1200 + b" HTTP/1.1\r\n\r\n"]
+    send_payloads(runner, "http grammar and single faults", pl, r, tier)
+    # byte by byte over TCP for a sample
+    s = runner.session(cfg_plain(), "http byte by byte")
+    flows = []
+    for i, q in enumerate(r.sample(pl, 20 if tier == "quick" else 400)):
+        flows.append((peer4(), 20000 + i, 80, i, [q[j:j + 1] for j in range(len(q))]))
+    tcp_batch(s, flows)
+
+
+def gen_dns(runner, tier, seed):
+    r = rng_for(seed, "C14")
+    pl = []
+
+    def name(r):
+        labels = []
+        total = 1
+        for _ in range(r.choice([1, 1, 2, 3, 4, 8])):
+            l = r.choice([1, 2, 3, 7, 20, 62, 63])
+            if total + l + 1 > 255:
+                break
+            labels.append(rb(r, l, list(range(97, 123)) + list(range(48, 58)) + [45, 95, 0x80, 0xff, 0x2e]))
+            total += l + 1
+        return tuple(labels) or (b"a",)
+    ids = [0, 1, 0xffff] + [r.randrange(65536) for _ in range(5)]
+    flagwords = [0, 0x0100] + [1 << b for b in range(16)] + [r.randrange(65536) for _ in range(20 if tier == "quick" else 4000)]
+    for fw in flagwords:
+        pl.append(dns_query(r.choice(ids), fw, [name(r)]))
+    for qn in range(0, 5):
+        for _ in range(4 if tier == "quick" else 60):
+            pl.append(dns_query(r.choice(ids), r.choice([0, 0x0100]), [name(r) for _ in range(qn)]))
+    # longest names
+    pl.append(dns_query(7, 0x0100, [(b"a" * 63, b"b" * 63, b"c" * 63, b"d" * 61)]))
+    pl.append(dns_query(7, 0x0100, [(b"a" * 63, b"b" * 63, b"c" * 63, b"d" * 62)]))        # 256: too long
+    # faults: other type/class, truncation at every byte, extra sections, trailing bytes, counts lying
+    base = dns_query(0x4242, 0x0100, [(b"www", b"example", b"org"), (b"x",)])
+    for t, c in ((16, 1), (1, 3), (28, 1), (255, 1), (1, 255), (0, 0), (2, 1), (1, 2)):
+        pl.append(dns_query(0x4242, 0x0100, [(b"www", b"example", b"org"), (b"x",)], qtypes=[(1, 1), (t, c)]))
+        pl.append(dns_query(0x4242, 0x0100, [(b"q",)], qtypes=[(t, c)]))
+    for n in range(0, len(base)):
+        pl.append(base[:n])
+    pl.append(base + b"\0")
+    pl.append(base + b"trailing")
+    for counts in ((2, 1, 0, 0), (2, 0, 1, 0), (2, 0, 0, 1), (3, 0, 0, 0), (1, 0, 0, 0), (0, 0, 0, 0), (65535, 0, 0, 0)):
+        pl.append(dns_query(0x4242, 0x0100, [(b"www", b"example", b"org"), (b"x",)], counts=counts))
+    # answers present (a response-shaped query), compression pointers, NUL inside a label
+    pl.append(dns_query(1, 0x0100, [(b"a",)], counts=(1, 1, 0, 0), tail=b"\xc0\x0c\0\1\0\1\0\0\0\x3c\0\4\1\2\3\4"))
+    pl.append(dns_query(1, 0x0100, [b"\xc0\x0c"]))
+    pl.append(dns_query(1, 0x0100, [(b"a\0b",)]))
+    s = send_payloads(runner, "dns", pl, r, tier, tcp=False)
+    # destination addresses
+    s2 = runner.session(cfg_plain(), "dns destinations")
+    fr = []
+    for _ in range(20 if tier == "quick" else 500):
+        p = Peer(CMAC, SMAC, rand_ip4(r), rand_ip4(r))
+        fr.append(p.udp(r.randrange(65536), r.choice([53, 5353, r.randrange(65536)]), dns_query(r.randrange(65536), 0x0100, [name(r)])))
+    s2.send(fr)
+
+
+def gen_stun(runner, tier, seed):
+    r = rng_for(seed, "C15")
+    pl = []
+    n = 30 if tier == "quick" else 1500
+    for k in range(n):
+        magic = r.random() < 0.5
+        tx = (STUN_MAGIC + rb(r, 12)) if magic else rb(r, 16)
+        attrs = b""
+        for _ in range(r.choice([0, 0, 1, 2, 3, 4])):
+            t = r.choice([0x0003, 0x0006, 0x0008, 0x0020, 0x8022, 0x8028, 0x0024, 0x7777])
+            l = 4 if t == 3 else r.choice([0, 4, 8, 12, 20, 40])
+            v = struct.pack(">I", r.choice([0, 2, 4, 6])) if t == 3 else rb(r, l)
+            attrs += stun_attr(t, v)
+        if magic and r.random() < 0.7:
+            attrs += stun_attr(0x8022, rb(r, 256))            # length >= 0x100: outside the listed C10 class
+        pl.append(stun(0x0001, tx, attrs))
+    # exact signature forms
+    for _ in range(10 if tier == "quick" else 200):
+        pl.append(stun(0x0001, rb(r, 16)))
+        pl.append(stun(0x0001, rb(r, 16), stun_change_request(r.random() < 0.5, r.random() < 0.5)))
+        pl.append(stun(0x0001, STUN_MAGIC + rb(r, 12)))
+    # other classes and methods; wrong lengths; malformed TLVs
+    for t in (0x0011, 0x0101, 0x0111, 0x0002, 0x0003, 0x0102, 0x0004, 0x0112, 0x4001, 0x8001, 0x0000, 0x0201):
+        pl.append(stun(t, rb(r, 16)))
+        pl.append(stun(t, STUN_MAGIC + rb(r, 12)))
+        pl.append(stun(t, STUN_MAGIC + rb(r, 12), stun_attr(0x0001, b"\0\1" + struct.pack(">H", 4242) + bytes([1, 2, 3, 4]))))
+    for k in range(10 if tier == "quick" else 300):
+        tx = STUN_MAGIC + rb(r, 12)
+        good = stun_attr(0x8022, rb(r, 256))
+        bad = r.choice([struct.pack(">HH", r.choice([1, 3, 0x8022]), r.choice([1, 2, 3, 5, 300, 65535])) + rb(r, r.randrange(0, 6)),
+                        b"\0", b"\0\1\0", stun_attr(1, b""), stun_attr(1, b"\0\1\0\0"), stun_attr(1, b"\0\3" + rb(r, 6)), stun_attr(3, b""), stun_attr(3, b"\0\0"),
+                        stun_attr(1, b"\0\2" + rb(r, 10))])
+        pl.append(stun(1, tx, good + bad))
+        pl.append(stun(1, tx, good + bad, length=len(good) + len(bad) + r.choice([-1, 1, 4])))
+        pl.append(stun(1, tx, good + stun_change_request(False, True) + stun_change_request(False, True)))
+    s = runner.session(cfg_plain(), "stun")
+    fr = []
+    for q in pl:
+        for p in (peer4(), peer6(), Peer(CMAC, SMAC, rand_ip4(r), S4), Peer(CMAC, SMAC, rand_ip6(r), S6)):
+            if tier == "quick" and r.random() < 0.5:
+                continue
+            fr.append(p.udp(r.choice([0, 1, 65535, r.randrange(65536)]), r.choice([3478, 65535, 0, r.randrange(65536)]), q))
+    s.send(fr)
+    send_payloads(runner, "stun over tcp", [q for q in pl if q[4:8] == STUN_MAGIC][:60 if tier == "quick" else 600], r, tier, udp=False)
+
+
+def gen_rpc(runner, tier, seed):
+    r = rng_for(seed, "C16")
+
+    def xid():
+        # top byte outside the listed C10 shadow classes most of the time
+        return (r.choice([0x12, 0x80, 0xfe, 0x01, 0x99, 0x7e]) << 24) | r.randrange(1 << 24)
+    calls = []
+    progs = list(range(99840, 100096)) if tier != "quick" else [99840, 99999, 100000, 100001, 100003, 100005, 100095]
+    versions = [0, 1, 2, 3, 4, 5, 104316, 0xffffffff]
+    procs = list(range(0, 256)) if tier != "quick" else [0, 1, 2, 3, 4, 5, 6, 100, 255]
+    for prog in progs:
+        for v in versions:
+            for pr in (procs if prog == 100000 else [0, 3, r.choice(procs)]):
+                if tier == "quick" or r.random() < 0.2 or prog == 100000:
+                    calls.append((xid(), prog, v, pr, r.choice([b"", b"", b"\0" * 4, rb(r, 8), rb(r, 400)]), b""))
+    # auth lengths that are not multiples of four, non-empty verifiers (unspecified for the answer, must not crash)
+    for _ in range(10 if tier == "quick" else 200):
+        calls.append((xid(), 100000, r.choice([2, 3, 4]), r.choice([0, 3, 4]), rb(r, r.choice([1, 2, 3, 5, 7])), rb(r, r.choice([0, 4, 7]))))
+    s = runner.session(cfg_plain(), "rpc udp")
+    fr = []
+    for (x, prog, v, pr, cred, verf) in calls:
+        args = struct.pack(">IIII", 100003, 3, 6, 0) if pr == 3 else b""
+        p = r.choice([peer4(), peer6(), Peer(CMAC, SMAC, rand_ip4(r), rand_ip4(r)), Peer(CMAC, SMAC, rand_ip6(r), rand_ip6(r))])
+        fr.append(p.udp(r.randrange(65536), r.choice([111, 0, 65535, r.randrange(65536)]), rpc_call(x, prog, v, pr, cred, verf, args)))
+    s.send(fr)
+    s = runner.session(cfg_plain(), "rpc tcp")
+    flows = []
+    for i, (x, prog, v, pr, cred, verf) in enumerate(calls if tier != "quick" else calls[::3]):
+        args = struct.pack(">IIII", 100003, 3, 6, 0) if pr == 3 else b""
+        p = r.choice([peer4(), peer6()])
+        flows.append((p, 1024 + (i % 60000), r.choice([111, 0, 65535, r.randrange(65536)]), r.randrange(1 << 32), [rpc_call(x, prog, v, pr, cred, verf, args, tcp=True)]))
+    for ch in chunks(flows, 500):
+        s.reset()
+        tcp_batch(s, ch)
+    # replies and other message types are not calls
+    pl = [rpc_call(xid(), mtype=1), rpc_call(xid(), mtype=2), rpc_call(xid(), rpcvers=3), rpc_call(xid())[:39], rpc_call(xid())[:24]]
+    send_payloads(runner, "rpc non-calls", pl, r, tier)
+
+
+def gen_smb(runner, tier, seed):
+    r = rng_for(seed, "C17")
+    pl = []
+    dialect_pool = [b"PC NETWORK PROGRAM 1.0", b"LANMAN1.0", b"Windows for Workgroups 3.1a", b"LM1.2X002", b"LANMAN2.1", b"NT LM 0.12",
+                    b"SMB 2.002", b"SMB 2.???", b"FOO", b"x"]
+    n = 12 if tier == "quick" else 400
+    for k in range(n):
+        ds = r.sample(dialect_pool, r.randrange(1, 9))
+        if r.random() < 0.2:
+            ds.append(r.choice(ds))                         # duplicates
+        hdr = dict(pid_high=r.randrange(65536), tid=r.randrange(65536), pid_low=r.randrange(65536), uid=r.randrange(65536), mid=r.randrange(65536),
+                   flags=r.choice([0x18, 0x08, 0x00, 0x18 | 0x80 if r.random() < 0.2 else 0x18]))
+        pl.append(smb1_negotiate(ds, **hdr))
+        pl.append(smb1_session_setup(blob=rb(r, r.choice([1, 2, 40, 74, 255, 300])), **hdr))
+        d2 = r.sample([0x0202, 0x0210, 0x0300, 0x0302, 0x0311, 0x02ff, 0x0310, 0x0000, 0x1234, 0xffff, 0x0201], r.randrange(1, 8))
+        if r.random() < 0.15:
+            d2.append(d2[0])
+        h2 = dict(message_id=r.randrange(1 << 62), async_id=r.randrange(1 << 62), session_id=r.randrange(1 << 62), flags=r.choice([0, 0, 0, 1, 8]))
+        pl.append(smb2_negotiate(d2, **h2))
+        pl.append(smb2_session_setup(blob=rb(r, r.choice([1, 2, 40, 74, 255, 300])), **h2))
+    pl += [smb2_negotiate([0x1234, 0x0000]), smb2_negotiate([0xffff]), smb2_negotiate([0x0202], count=0), smb2_negotiate([0x0202, 0x0210], count=1),
+           smb2_negotiate([0x0202], count=2), smb1_negotiate([b"NT LM 0.12"], byte_count=3), smb1_negotiate([b"NT LM 0.12"], byte_count=200),
+           smb1_negotiate([]), smb1_session_setup(blob=b""), smb2_session_setup(blob=b"")]
+    for cmd in (range(256) if tier != "quick" else list(range(0, 12)) + [0x70, 0x71, 0x72, 0x73, 0x74, 0x75, 0xa2, 0xff]):
+        pl.append(nbt(smb1_header(cmd) + b"\0\0\0"))
+        pl.append(nbt(smb2_header(cmd) + struct.pack("<HH", 4, 0)))
+    # truncations of the four clean requests
+    for base in (smb1_negotiate([b"LANMAN1.0", b"NT LM 0.12"]), smb1_session_setup(), smb2_negotiate(), smb2_session_setup()):
+        for n_ in (range(0, len(base)) if tier != "quick" else range(0, len(base), 3)):
+            pl.append(base[:n_])
+    send_payloads(runner, "smb", pl, r, tier)
+
+
+def gen_ssh_ghost(runner, tier, seed):
+    r = rng_for(seed, "C18")
+    pl = []
+    alpha = [c for c in range(33, 127)] + [13, 13, 0x80, 0xff, 0, 9]
+    n = 60 if tier == "quick" else 3000
+    for k in range(n):
+        ver = r.choice([b"2.0", b"1.99", b"2.0", b"2.0.1", b"2.00", b"1.5", b"2.", b"2.0a", b"", b"2..0"])
+        sw = rb(r, r.randrange(0, 12), alpha)
+        cm = None if r.random() < 0.5 else rb(r, r.randrange(0, 12), alpha + [32])
+        term = r.choice([b"\r\n", b"\r\n", b"\r\n", b"\n", b"\r", b"", b"\r\r\n", b"\n\r"])
+        tail = r.choice([b"", b"", b"\0\0\0\x14", rb(r, 7)])
+        pl.append(ssh_ident(ver, sw, cm, term, tail))
+    pl += [b"SSH-2.0-x\r\n", b"SSH-1.99-x\r\n", b"SSH-2.0-x", b"SSH-2.0-\r\n", b"SSH-2.0\r\n", b"SSH-2.0- \r\n", b"SSH-2.0-a b c\r\n", b"SSH-2.0-a\rb\r\n",
+           b"SSH-2.0-a\r\r\n", b"SSH-1.5-x\r\n", b"ssh-2.0-x\r\n", b"SSH-2.0-x\n", b"SSH-2.0-" + b"y" * 300 + b"\r\n", b"SSH-2.0-x\r", b"SSH-2.0-x c\r"]
+    for t in range(0, 40 if tier == "quick" else 301):
+        pl.append(ghost(rb(r, t)))
+    pl += [b"Gh0st", b"Gh0s", b"gh0st", b"Gh0st\0\0\0\0"]
+    send_payloads(runner, "ssh and gh0st", pl, r, tier)
+
+
+# ------------------------------------------------------------------ C12
+def reflect(frame):
+    """Re-address a frame emitted by the responder back to it: MACs, IP addresses and ports
+    swapped, checksums recomputed.  Returns None for frames it cannot parse."""
+    try:
+        et = struct.unpack(">H", frame[12:14])[0]
+        smac_, cmac_ = frame[6:12], frame[0:6]            # reply: src = responder, dst = client
+        if et == 0x0806:
+            a = frame[14:]
+            body = a[:8] + a[18:24] + a[24:28] + a[8:14] + a[14:18] + a[28:]
+            return eth(smac_, cmac_, et, body)
+        if et == 0x0800:
+            src, dst, proto, l4 = frame[26:30], frame[30:34], frame[23], frame[34:]
+        elif et == 0x86DD:
+            src, dst, proto, l4 = frame[22:38], frame[38:54], frame[20], frame[54:]
+        else:
+            return None
+        nsrc, ndst = dst, src                              # now from the client to the responder
+        if proto == 17:
+            sp, dp = struct.unpack(">HH", l4[:4])
+            seg = udp(nsrc, ndst, dp, sp, l4[8:])
+        elif proto == 6:
+            sp, dp, seq, ack, of = struct.unpack(">HHIIH", l4[:14])
+            seg = tcp(nsrc, ndst, dp, sp, seq, ack, of & 0x1ff, l4[20:])
+        elif proto == 1:
+            seg = icmp(l4[0], l4[1], l4[4:])
+        elif proto == 58:
+            seg = icmp6(nsrc, ndst, l4[0], l4[1], l4[4:])
+        else:
+            return None
+        if et == 0x0800:
+            return eth(smac_, cmac_, et, ipv4(nsrc, ndst, proto, seg))
+        return eth(smac_, cmac_, et, ipv6(nsrc, ndst, proto, seg, hlim=255 if proto == 58 else 64))
+    except Exception:
+        return None
+
+
+def gen_replies(runner, tier, seed):
+    r = rng_for(seed, "C12")
+    cm = mac(CMAC)
+    p4, p6 = peer4(), peer6()
+    for cfg in (cfg_plain(), cfg_self()):
+        s = runner.session(cfg, "reply-typed messages self=%s" % bool(cfg.self_ips))
+        fr = []
+        # layer 2-4 replies
+        for op in (2, 4, 9):
+            fr.append(eth(SMAC, cm, 0x0806, arp(op, cm, C4, SMAC, S4)))
+            fr.append(eth(b"\xff" * 6, cm, 0x0806, arp(op, cm, S4, b"\xff" * 6, S4)))      # gratuitous
+        for k in range(6):
+            fr.append(p4.echo(r.randrange(65536), k, rb(r, k * 3), type_=0))
+            fr.append(p6.echo(r.randrange(65536), k, rb(r, k * 3), type_=129))
+        na = b"\x60\0\0\0" + ip(C6) + b"\x02\x01" + cm
+        fr.append(p6.l3(58, icmp6(p6.cip, p6.sip, 136, 0, na), hlim=255))
+        fr.append(eth(SMAC, cm, 0x86DD, ipv6(C6, "ff02::1", 58, icmp6(C6, "ff02::1", 136, 0, b"\x20\0\0\0" + ip(C6) + b"\x02\x01" + cm), hlim=255)))
+        for fl in (F_SYN | F_ACK, F_RST, F_RST | F_ACK, F_RST | F_PSH, F_SYN | F_ACK | F_ECE, F_RST | F_SYN):
+            for p in (p4, p6):
+                fr.append(p.tcp(r.randrange(65536), 80, r.randrange(1 << 32), r.randrange(1 << 32), fl, r.choice([b"", b"x"])))
+        # application replies, generated
+        app = []
+        for k in range(6 if tier == "quick" else 80):
+            app.append(dns_query(r.randrange(65536), 0x8180 | r.choice([0, 0x0400, 0x0003]), [(rb(r, 5, list(range(97, 123))), b"com")]))
+            app.append(dns_query(r.randrange(65536), 0x8180, [(b"a",)], counts=(1, 1, 0, 0), tail=b"\xc0\x0c\0\1\0\1\0\0\0\x3c\0\4\1\2\3\4"))
+            for t in (0x0011, 0x0101, 0x0111):
+                app.append(stun(t, rb(r, 16)))
+                app.append(stun(t, STUN_MAGIC + rb(r, 12), stun_attr(1, b"\0\1" + struct.pack(">H", r.randrange(65536)) + rb(r, 4))))
+            app.append(smb1_negotiate([b"NT LM 0.12"], flags=0x98, mid=r.randrange(65536)))
+            app.append(smb1_session_setup(flags=0x80))
+            app.append(smb2_negotiate([0x0202], flags=1, message_id=r.randrange(1 << 40)))
+            app.append(smb2_session_setup(flags=r.choice([1, 9])))
+            app.append(rpc_call(r.randrange(1 << 32), mtype=1))
+            app.append(struct.pack(">II", r.randrange(1 << 32), 1) + b"\0" * 16)          # accepted reply, success
+        for q in app:
+            fr.append(r.choice([p4, p6]).udp(r.randrange(65536), r.randrange(65536), q))
+        s.send(fr)
+        flows = [(r.choice([p4, p6]), 9000 + i, 445, r.randrange(1 << 32), [q]) for i, q in enumerate(app)]
+        tcp_batch(s, flows)
+        # the responder's own replies, reflected, chains followed.  A chain counts the replies
+        # elicited since a reply-typed message (the own reply of a protocol that marks replies)
+        # was bounced back; SSH / Gh0st / HTTP answers are not protocol-marked replies.
+        seeds = [(f, True) for _, f in base_requests(SMAC, C4, S4, C6, S6)]
+        for q in app_requests(r):
+            marked = not (q[:4] in (b"SSH-", b"Gh0s") or q[:3] in (b"GET", b"PUT", b"POS", b"HEA", b"DEL", b"CON", b"OPT", b"TRA", b"PAT"))
+            seeds.append((p4.udp(r.randrange(1024, 65536), r.randrange(1024, 65536), q), marked))
+            seeds.append((p6.udp(r.randrange(1024, 65536), r.randrange(1024, 65536), q), marked))
+        seeds.append((p4.tcp(1, 2, 3, 4, F_FIN | F_ACK), False))
+        obs = s.send([f for f, _ in seeds])
+        chains = []
+        for (f, marked), o in zip(seeds, obs):
+            if o["out"] == "reply":
+                g = reflect(bytes(o["rep"]))
+                if g is not None:
+                    chains.append((g, 0, marked))
+        depth = 0
+        while chains and depth < 6:
+            obs = s.send([f for f, _, _ in chains], chain=[c for _, c, _ in chains])
+            nxt = []
+            for (f, c, marked), o in zip(chains, obs):
+                if o["out"] == "reply":
+                    g = reflect(bytes(o["rep"]))
+                    if g is not None:
+                        nxt.append((g, c + 1 if marked else 0, marked))
+            chains = nxt
+            depth += 1
+        # application replies re-sent on validated TCP flows
+        flows = []
+        for i, q in enumerate(app_requests(r, tcpmode=True)):
+            flows.append(Flow(r.choice([p4, p6]), 12000 + i, 80, r.randrange(1 << 32)))
+        live = open_flows(s, flows)
+        reqs = app_requests(r, tcpmode=True)
+        obs = s.send([f.data(q) for f, q in zip(live, reqs)])
+        back = []
+        for f, o in zip(live, obs):
+            if o["out"] == "reply":
+                t = tcp_fields(bytes(o["rep"]))
+                if t["payload"]:
+                    f2 = Flow(f.peer, f.sport + 1000, f.dport, r.randrange(1 << 32))
+                    back.append((f2, bytes(t["payload"])))
+        live2 = open_flows(s, [f for f, _ in back])
+        s.send([f.data(q) for f, q in back if f.ck is not None], chain=1)
+
+
+# ------------------------------------------------------------------ C19
+def gen_ports(runner, tier, seed):
+    r = rng_for(seed, "C19")
+    payloads = []
+    for _ in range(2 if tier == "quick" else 12):
+        payloads += app_requests(r) + app_requests(r, tcpmode=True)
+    payloads += [b"GET / HTTP/1.1\r\n", b"SSH-2.0-x\n", b"nothing to see", dns_query(qtypes=[(16, 1)]), smb2_negotiate([0x1234]),
+                 rpc_call(vers=9), rpc_call(proc=0), rpc_call(prog=100003), rpc_call(vers=3, proc=4), rpc_call(vers=2, proc=4),
+                 stun(0x0101, b"\5" * 16), dns_query(flags=0x8180)]
+    ports = [0, 1, 22, 53, 80, 111, 445, 3478, 65535]
+    s = runner.session(cfg_plain(), "ports and ip version, udp")
+    fr, grp = [], []
+    k = 4 if tier == "quick" else 12
+    for gi, q in enumerate(payloads):
+        ctxs = [(r.choice(ports + [r.randrange(65536)]), r.choice(ports + [r.randrange(65536)]), v6) for v6 in (False, True) for _ in range(k // 2)]
+        for (sp, dp, v6) in ctxs:
+            p = (Peer(CMAC, SMAC, rand_ip6(r), rand_ip6(r)) if r.random() < 0.5 else peer6()) if v6 else \
+                (Peer(CMAC, SMAC, rand_ip4(r), rand_ip4(r)) if r.random() < 0.5 else peer4())
+            fr.append(p.udp(sp, dp, q))
+            grp.append(gi + 1)
+    s.send(fr, grp=grp)
+    s = runner.session(cfg_plain(), "ports and ip version, tcp")
+    flows, grp = [], []
+    for gi, q in enumerate(payloads):
+        if q[:2] == b"\x12\x34" or (len(q) > 11 and q[4:8] == b"\0\0\0\0" and q[8:11] == b"\0\0\0"):
+            continue
+        for j in range(k):
+            v6 = j % 2 == 1
+            p = peer6() if v6 else peer4()
+            flows.append(Flow(p, r.choice([1, 1023, 65535, r.randrange(1024, 65535)]) if j else 40000 + gi, r.choice(ports + [r.randrange(65536)]), r.randrange(1 << 32)))
+            grp.append((gi + 1, q))
+    # distinct 4-tuples
+    seen, fl2, g2 = set(), [], []
+    for f, g in zip(flows, grp):
+        key = (f.peer.cip, f.sport, f.dport)
+        if key in seen:
+            continue
+        seen.add(key)
+        fl2.append(f)
+        g2.append(g)
+    live = open_flows(s, fl2)
+    s.send([f.data(g[1]) for f, g in zip(fl2, g2) if f.ck is not None], grp=[g[0] + 100000 for f, g in zip(fl2, g2) if f.ck is not None])
+
+
+# ------------------------------------------------------------------ C10
+def c10_payloads(r, tier):
+    """Clean requests of every signature with every wildcard position swept over byte values
+    (all 256 in the thorough tier, the other signatures' literals and a sample otherwise)."""
+    literals = sorted(set(b"GETPUOSHADLCNIR /-2.0199Gh0st\x00\x01\x21\x12\xa4\x42\x08\x03\x04\x86\xff\xfeSMB"))
+    def sweep():
+        if tier != "quick":
+            return list(range(256))
+        return sorted(set(literals + [r.randrange(256) for _ in range(6)] + [0x7f, 0x80, 0x0a]))
+    out = []
+    # RPC over UDP: xid bytes (0..3), program low byte (15), version (16..19), procedure low byte (23)
+    for pos in range(4):
+        for b in sweep():
+            x = bytearray(struct.pack(">I", 0x12345678)); x[pos] = b
+            out.append(("RPC-UDP", rpc_call(struct.unpack(">I", bytes(x))[0], vers=r.choice([2, 3, 4]), proc=r.choice([0, 3, 4]))))
+            out.append(("RPC-TCP", rpc_call(struct.unpack(">I", bytes(x))[0], vers=r.choice([2, 3, 4]), proc=r.choice([0, 3, 4]), tcp=True)))
+    for b in sweep():
+        out.append(("RPC-UDP", rpc_call(0x12000000 | b, prog=99840 + b, vers=2, proc=3)))
+        out.append(("RPC-UDP", rpc_call(0x12000000 | b, vers=(b << 24) | 3, proc=0)))
+        out.append(("RPC-UDP", rpc_call(0x12000000 | b, vers=2 + (b << 8), proc=0)))
+        out.append(("RPC-UDP", rpc_call(0x12000000 | b, vers=b, proc=0)))
+        out.append(("RPC-UDP", rpc_call(0x12000000 | b, vers=2, proc=b)))
+        out.append(("RPC-TCP", rpc_call(0x12000000 | b, prog=99840 + b, vers=2, proc=3, tcp=True)))
+        out.append(("RPC-TCP", rpc_call(0x12000000 | b, vers=b, proc=0, tcp=True)))
+        out.append(("RPC-TCP", rpc_call(0x12000000 | b, vers=2, proc=b, tcp=True)))
+        out.append(("RPC-TCP", rpc_call(0x12000000 | b, vers=2, proc=0, cred=b"c" * (4 * (b % 64)), tcp=True)))    # record-mark length byte
+    # STUN: transaction id bytes, message length bytes, change-request flag byte
+    for pos in range(16):
+        for b in sweep():
+            tx = bytearray(b"\x55" * 16); tx[pos] = b
+            out.append(("STUN-empty", stun(1, bytes(tx))))
+            if pos % 4 == 0 or tier != "quick":
+                out.append(("STUN-change-request", stun(1, bytes(tx), stun_change_request(False, b % 2 == 0))))
+    for b in sweep():
+        out.append(("STUN-change-request", stun(1, b"\x66" * 16, stun_attr(3, b"\0\0\0" + bytes([b])))))
+    for n in (range(0, 1300, 4) if tier != "quick" else list(range(0, 80, 4)) + [252, 256, 260, 512, 1024]):
+        out.append(("STUN-magic", stun(1, STUN_MAGIC + rb(r, 12), stun_attr(0x8022, b"v" * n) if n else b"")))
+    # SMB: NetBIOS length bytes
+    for n in (range(1, 400) if tier != "quick" else [1, 2, 5, 40, 212, 213, 214, 255, 256, 300]):
+        out.append(("SMB1", smb1_session_setup(blob=b"b" * n)))
+        out.append(("SMB2", smb2_session_setup(blob=b"b" * n)))
+    for k in range(1, 9):
+        out.append(("SMB1", smb1_negotiate([b"D%d" % i for i in range(k)] + [b"NT LM 0.12"])))
+        out.append(("SMB2", smb2_negotiate([0x0202, 0x0210, 0x0300, 0x0302, 0x0311, 0x02ff, 0x0310, 0x0201][:k])))
+    # literal signatures
+    for v in HTTP_VERBS:
+        out.append(("HTTP", http_request(v, b"/" + rb(r, 3, list(range(97, 123))))))
+    out += [("SSH", b"SSH-2.0-a\r\n"), ("SSH", b"SSH-1.99-a\r\n"), ("GHOST", b"Gh0st" + rb(r, 9))]
+    return out
+
+
+def c10_candidates(mismatches):
+    """Payloads that put a matcher-level disagreement to the test on the real stack: the
+    witness alone, and the witness overlaid on / followed by a valid request of every protocol."""
+    templates = [http_request(), b" HTTP/1.1\r\n\r\n", b"/ HTTP/1.1\r\n\r\n", ssh_ident(), b"-x\r\n", b"x\r\n", b"\r\n", ghost(b"tail"),
+                 stun(1, b"\x31" * 16), stun(1, b"\x32" * 16, stun_change_request(False, True)),
+                 stun(1, STUN_MAGIC + b"\x33" * 12, stun_attr(0x8022, b"w" * 256)), stun(1, STUN_MAGIC + b"\x33" * 12),
+                 rpc_call(), rpc_call(tcp=True), rpc_call(vers=4, proc=4), rpc_call(vers=4, proc=4, tcp=True),
+                 smb1_negotiate(), smb1_session_setup(), smb2_negotiate(), smb2_session_setup(), dns_query()]
+    out = []
+    for m in mismatches:
+        w = m["witness"]
+        out.append(w)
+        for t in templates:
+            out.append(w + t[len(w):])
+            out.append(w + t)
+    # de-duplicate, keep order
+    seen, res = set(), []
+    for p in out:
+        if p not in seen:
+            seen.add(p)
+            res.append(p)
+    return res
+
+
+def gen_identification(runner, tier, seed, mismatches):
+    r = rng_for(seed, "C10")
+    pls = [p for _, p in c10_payloads(r, tier)]
+    send_payloads(runner, "signature wildcard sweeps", pls, r, tier)
+    cand = c10_candidates(mismatches)
+    if tier == "quick" and len(cand) > 1500:
+        cand = r.sample(cand, 1500)
+    send_payloads(runner, "matcher/reference disagreements put to the test", cand, r, tier)
+    # the decision does not depend on how the leading bytes are cut (stream protocols)
+    s = runner.session(cfg_plain(), "leading bytes cut at every position")
+    flows, plans = [], []
+    reqs = [http_request("OPTIONS", b"/"), http_request("GET", b"/"), rpc_call(0x12345678, vers=2, proc=3, tcp=True), rpc_call(0x80000001, vers=4, proc=0, tcp=True)]
+    port = 5000
+    for q in reqs:
+        for c in range(1, 30):
+            port += 1
+            flows.append(Flow(r.choice([peer4(), peer6()]), port, r.randrange(65536), r.randrange(1 << 32)))
+            plans.append(split_at(q, [c]) if c < len(q) else [q])
+    live = open_flows(s, flows)
+    frames = []
+    for f, pl in zip(flows, plans):
+        if f.ck is not None:
+            for seg in pl:
+                frames.append(f.data(seg))
+    s.send(frames)
+
+
+# ------------------------------------------------------------------ C01
+def frame_offsets(f):
+    """Syntactic layer offsets of a frame (for structured mutation only)."""
+    offs = {"eth": 0}
+    if len(f) < 14:
+        return offs
+    et = struct.unpack(">H", f[12:14])[0]
+    if et == 0x0806:
+        offs["arp"] = 14
+    elif et == 0x0800 and len(f) >= 34:
+        offs["ip"] = 14
+        l4 = 14 + max((f[14] & 15) * 4, 20)
+        offs["l4"] = l4
+        proto = f[23]
+        offs["proto"] = proto
+        offs["app"] = l4 + (8 if proto == 17 else 20 if proto == 6 else 4)
+    elif et == 0x86DD and len(f) >= 54:
+        offs["ip"] = 14
+        offs["l4"] = 54
+        proto = f[20]
+        offs["proto"] = proto
+        offs["app"] = 54 + (8 if proto == 17 else 20 if proto == 6 else 4)
+    return offs
+
+
+def mutations(f, r, tier):
+    """Spec-structured mutations of one frame: truncation to every length, every 16-bit
+    word of the headers and of the first application bytes set to boundary values, every
+    byte set to 0 / 0xff / flipped top bit, type bytes swept, random splices."""
+    out = []
+    n = len(f)
+    step = 1 if n <= 160 or tier != "quick" else max(1, n // 80)
+    for k in range(0, n, step):
+        out.append(f[:k])
+    offs = frame_offsets(f)
+    app = offs.get("app", 14)
+    limit = min(n, app + (96 if tier == "quick" else 400))
+    for o in range(12, limit - 1):
+        if tier == "quick" and o > app + 40 and o % 3:
+            continue
+        w = struct.unpack(">H", f[o:o + 2])[0]
+        for v in {0, 1, (w - 1) & 0xffff, (w + 1) & 0xffff, 0xffff, 0x8000, w ^ 0xff00}:
+            if v != w:
+                out.append(f[:o] + struct.pack(">H", v) + f[o + 2:])
+    for o in range(12, limit):
+        for v in (0, 0xff, f[o] ^ 0x80, (f[o] + 1) & 255, 32):
+            if v != f[o]:
+                out.append(f[:o] + bytes([v]) + f[o + 1:])
+    # sweep the type / flavour / family bytes at the start of each layer
+    for key in ("l4", "app"):
+        o = offs.get(key)
+        if o is not None and o < n:
+            for v in range(256):
+                out.append(f[:o] + bytes([v]) + f[o + 1:])
+            if o + 1 < n:
+                for v in range(0, 256, 1 if tier != "quick" else 5):
+                    out.append(f[:o + 1] + bytes([v]) + f[o + 2:])
+    for _ in range(20 if tier == "quick" else 200):
+        b = bytearray(f)
+        for _ in range(r.randrange(1, 6)):
+            if b:
+                b[r.randrange(len(b))] = r.randrange(256)
+        out.append(bytes(b))
+    # extension: the frame followed by junk, up to the capture buffer size
+    out.append(f + rb(r, r.randrange(1, 64)))
+    if n < 4096:
+        out.append(f + b"\0" * (4096 - n))
+    return out
+
+
+def c01_seeds(r):
+    p4, p6 = peer4(), peer6()
+    cm = mac(CMAC)
+    seeds = [f for _, f in base_requests(SMAC, C4, S4, C6, S6)]
+    seeds += [f for _, f in base_requests(b"\xff" * 6, D4, O4, D6, O6)]
+    apps = app_requests(r) + app_requests(r, tcpmode=True) + [
+        dns_query(questions=[(b"a", b"b"), (b"c",)]), dns_query(counts=(1, 1, 0, 0), tail=b"\xc0\x0c\0\1\0\1\0\0\0\x3c\0\4\1\2\3\4"),
+        stun(1, STUN_MAGIC + b"\x09" * 12, stun_attr(0x8022, b"z" * 256) + stun_change_request(True, True) + stun_attr(1, b"\0\1\x12\x34\1\2\3\4") +
+             stun_attr(1, b"\0\2\x12\x34" + b"\6" * 16) + stun_attr(0x20, b"\0\1\0\0\0\0\0\0")),
+        rpc_call(vers=4, proc=4), rpc_call(vers=3, proc=3), rpc_call(cred=b"c" * 12, verf=b"v" * 8),
+        http_request("GET", b"/\xff\xfe", headers=[b"Content-Length: 5", b"Content-Type: x"], body=b"hello"),
+        ssh_ident(comment=b"a comment"), smb1_negotiate([b"LANMAN1.0", b"NT LM 0.12", b"SMB 2.002"]), smb2_negotiate([0x0311, 0x0202])]
+    for q in apps:
+        seeds.append(p4.udp(4321, 1234, q))
+        seeds.append(p6.udp(4321, 1234, q))
+    seeds.append(eth(SMAC, cm, 0x86DD, ipv6(C6, S6, 58, nd_ns(C6, S6, S6, b"\x01\x01" + cm + b"\x0e\x01" + b"n" * 6), hlim=255)))
+    seeds.append(p4.l3(1, icmp(13, 0, b"\0" * 16)))
+    seeds.append(eth(SMAC, cm, 0x0800, ipv4(C4, S4, 6, tcp(C4, S4, 1, 2, 3, 4, F_SYN, b"", doff=8, options=b"\x02\x04\x05\xb4\x01\x03\x03\x07\x04\x02\x00\x00"), ihl=5)))
+    seeds.append(eth(SMAC, cm, 0x0800, ipv4(C4, S4, 17, udp(C4, S4, 1, 2, stun(1, b"\1" * 16)), ihl=7, options=b"\x07\x07\x04\0\0\0\0\0")))
+    return seeds, apps
+
+
+def config_matrix(tier):
+    out = []
+    for selfl in (None, [S4, S6]):
+        for deny in (None, [D4, D6]):
+            for logger in ("none", "console", "logfmt"):
+                for level in range(5):
+                    out.append(Config(SMAC, selfl, deny, KEYS[1], logger, level))
+    if tier != "quick":
+        return out
+    # a covering subset: every value of every dimension, all levels with each logger at least once
+    pick = [c for i, c in enumerate(out) if (i * 7) % 11 == 0]
+    must = [Config(SMAC, [S4, S6], [D4, D6], KEYS[1], "logfmt", 4), Config(SMAC, None, None, KEYS[1], "console", 3),
+            Config(SMAC, [S4, S6], None, KEYS[1], "none", 1), Config(SMAC, None, [D4, D6], KEYS[1], "none", 2), Config(SMAC, None, None, KEYS[1], "none", 0)]
+    return must + pick[:3]
+
+
+def gen_crash(runner, tier, seed):
+    r = rng_for(seed, "C01")
+    seeds, apps = c01_seeds(r)
+    muts = []
+    for f in seeds:
+        muts += mutations(f, r, tier)
+    if tier == "quick":
+        r.shuffle(muts)
+        keep = 30000
+        muts = muts[:keep]
+    cfgs = config_matrix(tier)
+    for ci, cfg in enumerate(cfgs):
+        s = runner.session(cfg, "crash matrix cfg %d: self=%s deny=%s logger=%s level=%d" % (ci, bool(cfg.self_ips), bool(cfg.deny), cfg.logger, cfg.level))
+        part = muts if tier != "quick" else muts[ci::len(cfgs)] + muts[(ci + 1) % len(cfgs)::len(cfgs)][:1000]
+        s.send(seeds)
+        for ch in chunks(part, 5000):
+            s.send(ch)
+        # histories: mutated continuation segments on validated flows that hold partial parser state
+        p4, p6 = peer4(), peer6()
+        flows = [Flow(r.choice([p4, p6]), 30000 + i, r.choice([80, 111, 445]), r.randrange(1 << 32)) for i in range(60 if tier == "quick" else 600)]
+        live = open_flows(s, flows)
+        firsts, nexts = [], []
+        for f in live:
+            q = r.choice(HTTP_REQS + rpc_reqs(r) + [q for q in apps if len(q) > 8])
+            cut = r.randrange(0, min(len(q), 40) + 1)
+            firsts.append(f.data(q[:cut]))
+            rest = bytearray(q[cut:])
+            for _ in range(r.choice([0, 0, 1, 2, 5])):
+                if rest:
+                    rest[r.randrange(len(rest))] = r.randrange(256)
+            if r.random() < 0.2:
+                rest = rest[:r.randrange(0, len(rest) + 1)]
+            if r.random() < 0.1:
+                rest += rb(r, r.randrange(1, 3000))
+            nexts.append((f, bytes(rest)))
+        s.send(firsts)
+        s.send([f.data(x) for f, x in nexts])
+        s.send([f.data(rb(r, r.randrange(0, 64))) for f, _ in nexts])
